@@ -175,6 +175,21 @@ def gen(ctx):
     for _ in range(ctx.n(36, 3000)):
         yield _nonunit_case(rng, rng.choice(["scaled-random", "scaled-random", "rational", "exact",
                                              "scaled-theta", "scaled-ice"]))
+    # ---- one-dimensional objective spaces (m = 1, also K > m) and half-spaces: full pipeline; cones with
+    # anti-parallel rows (equality constraints, empty interior): α only — α_n is still well defined (0 on the
+    # equality rows) but `W z ≥ 𝟙` is infeasible, so d₁ / u* do not exist and compute_u_star is not called
+    full = [[[1]], [[3]], [[-1]], [[-2], [-1]], [[1], [2]], [[1, 0]], [[0, 0, -1]]]
+    empty = [[[1], [-1]], [[1, -1], [-1, 1], [1, 1]], [[1, 0], [-1, 0], [0, 1]], [[1, -1], [-1, 1]],
+             [[1, 1, 0], [-1, -1, 0], [0, 0, 1]], [[1, 0, 0], [-1, 0, 0], [0, 1, 0], [0, -1, 0], [0, 0, 1]]]
+    deg = [(W0, False) for W0 in full] + [(W0, True) for W0 in empty]
+    for W0, ao in deg:
+        if mine():
+            yield {"kind": "nonunit", "shape": "empty-interior" if ao else "m1-halfspace",
+                   "W0": [[float(t) for t in r] for r in W0], "scale": [1.0] * len(W0), "alpha_only": ao}
+    for _ in range(ctx.n(6, 400)):
+        W0, ao = rng.choice(deg)
+        yield {"kind": "nonunit", "shape": "empty-interior" if ao else "m1-halfspace",
+               "W0": [[float(t) for t in r] for r in W0], "scale": [rng.choice(SCALES) for _ in W0], "alpha_only": ao}
     # ---- integer-dtype cone matrices (what the class docstring passes: `np.array([[1, 0], [0, 1]])`)
     intw = []
     for d in range(2, 6):
@@ -433,7 +448,9 @@ def run_case(ctx, case):
     d1c = propose_d1(W, Wq)
     interior = d1c[0] if d1c else None
     d1lo = d1hi = None
-    if d1c is None:
+    if d1c is None and case.get("alpha_only"):
+        ctx.count("d1_infeasible_as_expected")  # empty interior: `W z ≥ 𝟙` has no solution, only α is defined
+    elif d1c is None:
         ctx.count("inconclusive_d1_no_proposal")
         good = False
     else:
@@ -501,7 +518,9 @@ def run_case(ctx, case):
     from vopy.algorithms.vogp import VOGP
     from vopy.algorithms.vogp_ad import VOGP_AD
 
-    for cls in (VOGP, VOGP_AD):
+    if case.get("alpha_only"):
+        ctx.count("alpha_only_cases")
+    for cls in (() if case.get("alpha_only") else (VOGP, VOGP_AD)):
         tag = cls.__name__
         if _timeouts.get(tag, 0) >= 3:
             # budget guard: the routine has already been reported as hanging three times in this
